@@ -525,6 +525,7 @@ protected:
 
     virtual Action visitExtGNU_EnclosedCompoundStatementExpression(const ExtGNU_EnclosedCompoundStatementExpressionSyntax* node) override
     {
+        traverseExpression(node);
         terminal(node->openParenthesisToken(), node);
         nonterminal(node->statement());
         terminal(node->closeParenthesisToken(), node);
@@ -533,6 +534,7 @@ protected:
 
     virtual Action visitExtGNU_ComplexValuedExpression(const ExtGNU_ComplexValuedExpressionSyntax* node) override
     {
+        traverseExpression(node);
         terminal(node->operatorToken(), node);
         nonterminal(node->expression());
         return Action::Skip;
@@ -595,6 +597,7 @@ protected:
 
     virtual Action visitCallExpression(const CallExpressionSyntax* node) override
     {
+        traverseExpression(node);
         nonterminal(node->expression());
         terminal(node->openParenthesisToken(), node);
         for (auto iter = node->arguments(); iter; iter = iter->next) {
@@ -607,6 +610,7 @@ protected:
 
     virtual Action visitVAArgumentExpression(const VAArgumentExpressionSyntax* node) override
     {
+        traverseExpression(node);
         terminal(node->keyword(), node);
         terminal(node->openParenthesisToken(), node);
         nonterminal(node->expression());
@@ -618,6 +622,7 @@ protected:
 
     virtual Action visitOffsetOfExpression(const OffsetOfExpressionSyntax* node) override
     {
+        traverseExpression(node);
         terminal(node->keyword(), node);
         terminal(node->openParenthesisToken(), node);
         nonterminal(node->typeName());
@@ -629,6 +634,7 @@ protected:
 
     virtual Action visitCompoundLiteralExpression(const CompoundLiteralExpressionSyntax* node) override
     {
+        traverseExpression(node);
         terminal(node->openParenthesisToken(), node);
         nonterminal(node->typeName());
         terminal(node->closeParenthesisToken(), node);
@@ -638,6 +644,7 @@ protected:
 
     virtual Action visitBinaryExpression(const BinaryExpressionSyntax* node) override
     {
+        traverseExpression(node);
         nonterminal(node->left());
         terminal(node->operatorToken(), node);
         nonterminal(node->right());
@@ -646,6 +653,7 @@ protected:
 
     virtual Action visitConditionalExpression(const ConditionalExpressionSyntax* node) override
     {
+        traverseExpression(node);
         nonterminal(node->condition());
         terminal(node->questionToken(), node);
         nonterminal(node->whenTrue());
@@ -656,6 +664,7 @@ protected:
 
     virtual Action visitAssignmentExpression(const AssignmentExpressionSyntax* node) override
     {
+        traverseExpression(node);
         nonterminal(node->left());
         terminal(node->operatorToken(), node);
         nonterminal(node->right());
@@ -664,6 +673,7 @@ protected:
 
     virtual Action visitSequencingExpression(const SequencingExpressionSyntax* node) override
     {
+        traverseExpression(node);
         nonterminal(node->left());
         terminal(node->operatorToken(), node);
         nonterminal(node->right());
@@ -672,6 +682,7 @@ protected:
 
     virtual Action visitExtGNU_ChooseExpression(const ExtGNU_ChooseExpressionSyntax* node) override
     {
+        traverseExpression(node);
         terminal(node->keyword(), node);
         terminal(node->openParenthesisToken(), node);
         nonterminal(node->constantExpression());
